@@ -511,6 +511,7 @@ func lazyXzTie(r *Result, dp *DriverPool, rng *rand.Rand, nbase int) error {
 		var content int
 		var ends []int
 		name := ""
+		flagsOf := 0
 		if i%2 == 0 {
 			c := pickXzCfg(rng, i)
 			c.Matcher = 0
@@ -526,6 +527,7 @@ func lazyXzTie(r *Result, dp *DriverPool, rng *rand.Rand, nbase int) error {
 				continue
 			}
 			s, content, name = w.Out, len(d), "lib"
+			flagsOf = checksumOf(c)
 			if c.BlockSize > 0 {
 				for e := int(c.BlockSize); e < len(d); e += int(c.BlockSize) {
 					ends = append(ends, e)
@@ -538,9 +540,19 @@ func lazyXzTie(r *Result, dp *DriverPool, rng *rand.Rand, nbase int) error {
 				return err
 			}
 			s, content, name = st, len(ct), "spec/"+truncate(desc, 40)
+			fmt.Sscanf(desc, "flags=%d", &flagsOf)
 			ends = []int{len(ct)}
 		}
 		mk(name, s, content, ends)
+		if i%3 != 2 {
+			// structural mutants with re-sealed checksums (declared sizes, index records, flags, padding …): the
+			// container-level checks of the lazy model against the real reader, call by call
+			ms := structuralMutants(rng, s, checkSizeOf(flagsOf), content)
+			rng.Shuffle(len(ms), func(a, b int) { ms[a], ms[b] = ms[b], ms[a] })
+			for k := 0; k < len(ms) && k < 3; k++ {
+				mk("mutant-"+ms[k].name+"/"+name, ms[k].s, content, nil)
+			}
+		}
 		switch i % 6 {
 		case 0:
 			mk("truncated/"+name, s[:rng.Intn(len(s)+1)], content, nil)
